@@ -17,6 +17,7 @@ pub mod c14;
 pub mod c15;
 pub mod c16;
 pub mod c17;
+pub mod c18;
 pub mod c19;
 pub mod c20;
 pub mod c13;
@@ -45,6 +46,7 @@ pub fn plan(id: &str, tier: Tier) -> Option<Plan> {
         "C15" => Some(c15::plan(tier)),
         "C16" => Some(c16::plan(tier)),
         "C17" => Some(c17::plan(tier)),
+        "C18" => Some(c18::plan(tier)),
         "C19" => Some(c19::plan(tier)),
         "C20" => Some(c20::plan(tier)),
         _ => None,
